@@ -37,11 +37,10 @@ ASSUMPTIONS = [
     'replies, a retransmitted request being idempotent on the server',
     'requests are in the domain wf_event: id a byte, 0 <= addr, addr+len <= 2^32, data bytes; outside it struct.pack '
     'raises inside the code (for writes while the lock is held) - not modelled',
-    'a request issued by a listener from inside a success / failure notification is modelled as the same request issued '
-    'right after the event (the code calls its listeners last); the tie checks exactly that on every run (nested calls '
-    'are reported as events of their own, nothing may follow them inside the handler); listeners that raise, and '
-    'requests issued from inside the notifications of a disconnect (wiped by _clear_state), are not modelled; '
-    'progress_cb is not modelled',
+    're-entrant listeners are modelled (C06/Reentrant.v): from inside every notification, those of a link drop included, '
+    'the listener may issue a read or write as an arbitrary policy says; the tie runs the model with the policy the '
+    'generated listeners followed (request made inside the n-th notification) and compares the nested calls, the lock '
+    'state at their start and what the handler does afterwards; listeners that raise and progress_cb are not modelled',
 ]
 PROVED = ('For every history of reads, queued / flushing writes, arbitrary packets on the memory port and disconnects '
           '(no bound on length): request packets stay within the protocol limits (<= 30 bytes, read chunks <= 20, '
@@ -71,11 +70,16 @@ PROVED = ('For every history of reads, queued / flushing writes, arbitrary packe
           'one-slot completion wrapper of the memory element classes answers every taken request by exactly one callback '
           'whatever the data and frees the slot (all histories); a completion skipped on a data-dependent branch is '
           'refuted in general; MemoryTester.new_data (model of the code with fixes/F06j.patch, tied on every run) calls the '
-          'completion exactly once for every data, the empty one too, with the verdict on all bytes.')
+          'completion exactly once for every data, the empty one too, with the verdict on all bytes. Re-entrant '
+          'listeners (C06/Reentrant.v, the code as it is): for every history and every policy of requests made from '
+          'inside notifications (of replies, error statuses and link drops) no listener runs with the write lock held, '
+          'no call blocks, the lock is free afterwards; for every policy that makes no request on a dead link (none from '
+          'inside the notifications of a link drop) every accepted request is exactly one of pending / settled once; '
+          'listeners inside the locked region are refuted with a concrete policy.')
 NOT_PROVED = ('Exactness when a reply that outlived its request (a late duplicate) is delivered to a later request for '
               'the same memory and address: refuted (C06_read_exact_full_refuted / C06_write_exact_full_refuted, '
               'finding F06b, reproduced on the code by the oracle; the protocol carries no transaction number). '
-              'Requests outside wf_event, user callbacks that raise, requests issued from the notifications of a disconnect, progress_cb (a zero-length write with '
+              'Requests outside wf_event, user callbacks that raise, requests made on a dead link (from inside the notifications of a link drop: accepted and wiped without notification, observation C06_request_on_dead_link_observation), progress_cb (a zero-length write with '
               'a progress callback divides by zero while the lock is held), true thread interleavings of user calls with '
               'the packet thread; of the element layer: only MemoryTester.new_data, OWElement and the deck layer are '
               'modelled in Coq, the other element classes (I2CElement, LocoMemory, LocoMemory2, LighthouseMemory, LED, '
@@ -91,7 +95,7 @@ NOT_PROVED = ('Exactness when a reply that outlived its request (a late duplicat
               '(its parsing belongs to C14), bases <= 0, other users of the manager\'s memory id, write_failed_cb left at '
               'its default None (the code then calls None when the write fails), progress messages.')
 
-HEADER = ('From CF Require Import Common.Bytes C06.Model C06.DeckModel C06.InfoModel C06.Wrapper.\nOpen Scope Z_scope.\n'
+HEADER = ('From CF Require Import Common.Bytes C06.Model C06.DeckModel C06.InfoModel C06.Wrapper C06.Reentrant.\nOpen Scope Z_scope.\n'
           'Definition tenc (r : bool * bool * list bool) : list Z := let \'(c, v, l) := r in '
           '(if c then 1 else 0) :: (if v then 1 else 0) :: map (fun b : bool => if b then 1 else 0) l.\n')
 
@@ -130,11 +134,12 @@ def ev_term(ev):
     raise ValueError(ev)
 
 
-def case_term(case, events=None):
-    """events: the flattened history (operations issued from inside listeners as events of their own)"""
+def case_term(case, events=None, policy=()):
+    """events: the top-level events; policy: [n, request]: the listener of the n-th notification issued that request"""
     wins = '[' + '; '.join('(%d, %d, %d)' % tuple(w) for w in case['windows']) + ']'
     evs = case['events'] if events is None else events
-    return 'run_case true %s [%s] %s' % (coqrun.zlist(case['plan']), '; '.join(ev_term(e) for e in evs), wins)
+    pol = '[' + '; '.join('(%d, %s)' % (n, ev_term(op)[4:]) for n, op in policy) + ']'
+    return 'rrun_case %s %s [%s] %s' % (coqrun.zlist(case['plan']), pol, '; '.join(ev_term(e) for e in evs), wins)
 
 
 def dev_term(ev):
@@ -459,9 +464,9 @@ def tie(ctx):
                                   'impl': rig.anomalies[:2]})
             continue
         ints, rig = run_impl(c)
-        terms.append(deck_case_term(c, rig.flat) if is_deck_case(c) else case_term(c, rig.flat))
+        terms.append(deck_case_term(c, rig.flat) if is_deck_case(c) else case_term(c, rig.top, rig.policy))
         exp.append(ints)
-        n_nested += len(rig.flat) - len(c['events'])
+        n_nested += len(rig.policy)
         if rig.obs_after_nested and len(anomalies) < 5:
             anomalies.append({'what': 'the handler went on sending / notifying after a listener that issued a request '
                                       'from inside the notification returned (listeners must be called last)',
@@ -590,6 +595,9 @@ class Judge:
         self.delivered = set()
         self.log_uid = []        # uid this bookkeeping attributes the n-th request packet (= n-th reply) to
         self.expect = {}
+        self.in_x = False        # the event being executed is a link drop
+        self.dead = set()        # uids of requests made on a dead link
+        self.x_write_phase = False
         self.dops = {}           # deck layer: token -> the DeckMemory.read / write call and what was observed for it
         self.dout = {'r': None, 'w': None}     # token of the outstanding deck read / write
         self.drefusal = None     # the manager must refuse the deck call of this event ('operation ongoing')
@@ -680,6 +688,17 @@ class Judge:
 
     def begin_op(self, k, ev, u0):
         """bookkeeping of a read()/write() call at the moment it is made (top level or from inside a listener)"""
+        if self.in_x:
+            # a request made from inside a notification of the link drop: a request on a link that is already gone (like
+            # one made a moment later); outside the property's quantifier, it never reaches a device: not judged
+            self.dead.add(u0)
+            if ev[0] == 'W' and ev[4] and not self.x_write_phase:
+                # made while the read-failed listeners run: the queues are still there, flush_queue supersedes
+                q = self.wq.get(ev[1], [])
+                for u in q[1:]:
+                    self.req[u]['state'] = 'superseded'
+                del q[1:]
+            return
         if ev[0] == 'R':
             if ev[1] in self.rpend:
                 self.expect[u0] = 'refused'
@@ -699,7 +718,13 @@ class Judge:
             q.append(u0)
 
     def end_op(self, k, ev, u0, u1):
+        if u0 in self.dead:
+            if u1 == u0:
+                self.dead.discard(u0)        # refused: no request, the uid goes to the next one
+            return
         if ev[0] != 'R':
+            if u1 == u0:
+                self.flag('write_refused_without_reason', 'write() returned False', True, False, k)
             return
         if self.expect.get(u0) == 'refused' and u1 != u0:
             self.flag('read_accepted_while_one_pending', 'read() returned True with a read pending on the memory', k=k)
@@ -713,6 +738,8 @@ class Judge:
             self.delivered.add(ev[1])
         if not self.is_fresh(ev):
             self.taint(ev)
+        self.in_x = ev[0] == 'X'
+        self.x_write_phase = False
         rig.do(ev)
         if rig.locked():
             cls = 'lock_left_held'
@@ -739,6 +766,9 @@ class Judge:
             elif item[0] == 'dn':
                 self.check_deck_note(k, item[1], item[2], item[3], item[4])
             else:
+                if len(item) > 3 and item[3]:
+                    self.flag('notification_with_lock_held', 'the listeners of %r run while the write lock is held: a '
+                              'request made from there blocks for ever' % (item[1][:4],), 'lock free', 'held', k)
                 self.check_note(k, ev, item[1], item[2] if len(item) > 2 else None)
         self.seen = len(rig.stream)
         if self.drefusal is not None:
@@ -764,6 +794,10 @@ class Judge:
             self.wq.clear()
             self.dout = {'r': None, 'w': None}
     def check_packet(self, k, chan, data, pre):
+        if self.in_x:
+            if len(data) >= 5:
+                self.log_uid.append(None)       # handed to a link that is gone: belongs to no judged request
+            return
         if len(data) > 30:
             self.flag('packet_too_long', 'request packet of %d bytes' % len(data), '<= 30', len(data), k)
         if len(data) < 5:
@@ -825,6 +859,10 @@ class Judge:
 
     def check_note(self, k, ev, note, img=None):
         kind, u = note[0], note[1]
+        if self.in_x and kind in ('wok', 'wfail'):
+            self.x_write_phase = True
+        if u in self.dead:
+            return
         r = self.req.get(u)
         if r is None:
             self.flag('notification_for_unknown_request', repr(note[:4]), k=k)
@@ -1005,6 +1043,17 @@ def systematic_cases(deep):
     out.append({'plan': [], 'events': [w] + [['D', k] for k in range(12)]})
     r = ['R', 2, 0, 41, {'on': 'ok', 'op': ['R', 2, 41, 41, {'on': 'any', 'op': ['W', 2, 0, d60, False]}]}]
     out.append({'plan': [], 'events': [r] + [['D', k] for k in range(12)]})
+    # requests made from the notifications of a link drop (retry listeners), with one and several requests pending
+    for k in (0, 1):
+        w = ['W', 1, 100, d60, False, {'on': 'fail', 'op': ['W', 1, 100, d60, False]}]
+        r = ['R', 1, 3, 45, {'on': 'fail', 'op': ['R', 1, 3, 45]}]
+        r2 = ['R', 2, 0, 30, {'on': 'any', 'op': ['W', 2, 0, d60, False]}]
+        w2 = ['W', 2, 0, [5] * 30, False, {'on': 'fail', 'op': ['R', 1, 0, 20]}]
+        tail = [['D', j] for j in range(k)] + [['X']] + [['D', j] for j in range(12)]
+        out.append({'plan': [], 'events': [w] + tail})
+        out.append({'plan': [], 'events': [r] + tail})
+        out.append({'plan': [], 'events': [r, w, r2, w2, ['W', 1, 10, [9] * 30, False]] + tail})
+        out.append({'plan': [], 'events': [w2, r2] + tail + [r, w] + [['D', j] for j in range(12, 24)]})
     # a late duplicate of a reply to an earlier read, with an address other than the awaited one (higher, lower),
     # delivered during a later read of the same memory: must be ignored
     for (a1, a2, n2) in ((20, 0, 40), (40, 0, 60), (0, 20, 40), (25, 5, 45)):
